@@ -20,8 +20,11 @@ macro_rules! registry {
 
 pub mod pinned;
 pub mod progdiff;
+pub mod typesound;
 
 registry! {
+    c01 => "C01",
+    c02 => "C02",
     c06 => "C06",
     c07 => "C07",
     c08 => "C08",
